@@ -416,6 +416,8 @@ impl Doc {
 
     #[inline(never)]
     pub(crate) fn token(&mut self, token: Token) {
+        #[cfg(bpaf_verif)]
+        crate::verif::tick();
         self.tokens.push(token);
     }
 
